@@ -1,7 +1,8 @@
 (* may network I/O on unix (epoll) - model of the CURRENT code of /repo (after the repairs
-   "an I/O subscribe times out by itself when it was held up past the deadline while arming" (fixB) and
-   "cancelling a coroutine blocked in socket I/O disarms the timer of that operation" (fixD); the two Section
-   booleans switch each repair off, which gives the code before it - used for the `_refuted` witnesses):
+   "an expired I/O timer leaves a mark in io_flag before it takes the coroutine" + "timeout_handler removes the timer
+   the socket has when it delivers the timeout" (fixB) and "cancelling a coroutine blocked in socket I/O disarms the
+   timer of that operation" (fixD); the two Section booleans switch each repair off, which gives the code before it -
+   used for the `_refuted` witnesses):
      src/io/sys/unix/mod.rs       EventData { io_flag, co, timer }, IoData::reset, schedule / fast_schedule,
                                   timeout_handler, co_io_result
      src/io/sys/unix/epoll.rs     Selector::select (per event: io_flag.fetch_or, co.take, disarm the timer by nulling
@@ -44,9 +45,6 @@
    Kernel half (subscriber k of actor a on descriptor f), executed by the worker after the context switch:
      SArm    add_io_timer (only with a timeout): new timer entry (deadline now + d, event_data = f), timer cell := handle
      SStore  io_data.co.store(co)
-     STo     timed_out_while_arming (fixB, only with a timeout): now() >= the deadline read before arming -> STo2 | -> SChk
-     STo2    co.take                                    none -> done | c -> SToT c
-     SToT    timer cell take, null event_data, remove; set the TimedOut parameter; run_coroutine(c)
      SChk    io_flag.load                               != 0 -> SFast | == 0 -> SSetIo (cn) / done (SocketWrite & co.
                                                         register no cancel data)
      SFast   fast_schedule: co.take                     none -> done | c -> SFastT c
@@ -59,8 +57,11 @@
      SelEvent  a pending event of f: io_flag.fetch_or(events)                      -> SEv f
      SelTake   co.take                                  none -> idle | c -> SEvT f c
      SelDisarm timer cell take, null event_data, remove (may or may not unlink: `unl`); schedule c
-     SelFire   pops a due entry of its own timer list; event_data null -> nothing | f: timer cell take   -> THnd f
-     SelHnd    timeout_handler: co.take                 none -> nothing | c: set TimedOut parameter, run_coroutine(c)
+     SelFire   pops a due entry of its own timer list; event_data null -> nothing | f -> THnd f
+                 (before the repair fixB: the handler empties the timer cell here and goes on to SelHnd without a mark)
+     SelMark   timeout_handler: io_flag.fetch_or(TIMER_MARK)                       -> THnd2 f
+     SelHnd    timeout_handler: co.take                 none -> nothing | c: timer cell take, null event_data, remove (fixB);
+                                                        set the TimedOut parameter, run_coroutine(c)
    Canceller of actor a (Cancel::cancel, any thread): CancelSet (state.fetch_or(1)), CancelIo (slot take), CancelTake (co.take,
              null event_data of the armed timer (fixD), schedule)
    `calm` (a Section boolean) adds a guard to the context switch in PYield: the caller does not suspend on descriptor f
@@ -79,9 +80,8 @@ Import ListNotations.
 
 Inductive kind := Rd | Wr.
 Inductive pc := Idle | PReset | PTry | PYield | Susp | RBack | RClr | LRes | LClr | LSys | LChk | Dead.
-Inductive spc := SArm | SStore | STo | STo2 | SToT (c : nat) | SChk | SFast | SFastT (c : nat) | SSetIo | SCan | SCan2
-             | SCan3 (f : nat) | SDone.
-Inductive selst := SIdle | SEv (f : nat) | SEvT (f c : nat) | THnd (f e : nat).
+Inductive spc := SArm | SStore | SChk | SFast | SFastT (c : nat) | SSetIo | SCan | SCan2 | SCan3 (f : nat) | SDone.
+Inductive selst := SIdle | SEv (f : nat) | SEvT (f c : nat) | THnd (f e : nat) | THnd2 (f e : nat).
 Inductive cnst := CnIdle | Cn1 | Cn2 (f : nat).
 Inductive tst := TFree | TArmed | TGone.
 Inductive home := HNone | HSub (k : nat) | HSlot (f : nat) | HSel (g : nat) | HFast (k : nat) | HAwake.
@@ -90,7 +90,7 @@ Inductive res := ROk (l : list nat) | RWrote (n : nat) | REof | RPipe | RTimedOu
 Record actor := { apc : pc; afd : nat; akind : kind; acn : bool; ato : option nat; adat : list nat; an : nat;
                   apara : bool; acanc : bool; acio : option nat; aawake : bool;
                   atcall : nat; ahome : home; alast : option res }.
-Record sub := { spc_ : spc; sa : nat; sfd : nat; sto : option nat; scn : bool; sdl : nat }.
+Record sub := { spc_ : spc; sa : nat; sfd : nat; sto : option nat; scn : bool }.
 Record tent := { tstate : tst; tdl : nat; tev : option nat; tmin : nat }.
 Record pipe := { buf : list nat; wshut : bool; sent : list nat; rcvd : list nat; eof : bool }.
 
@@ -110,6 +110,7 @@ Inductive action :=
 | SelTake (g : nat)
 | SelDisarm (g : nat) (unl : bool)
 | SelFire (g e : nat)
+| SelMark (g : nat)
 | SelHnd (g : nat)
 | CancelSet (a : nat)
 | CancelIo (a : nat)
@@ -135,8 +136,7 @@ Definition a_canc (x : actor) := mkA (apc x) (afd x) (akind x) (acn x) (ato x) (
 Definition a_cio (x : actor) c := mkA (apc x) (afd x) (akind x) (acn x) (ato x) (adat x) (an x) (apara x) (acanc x) c (aawake x) (atcall x) (ahome x) (alast x).
 Definition a_cio_pc (x : actor) c p := mkA p (afd x) (akind x) (acn x) (ato x) (adat x) (an x) (apara x) (acanc x) c (aawake x) (atcall x) (ahome x) (alast x).
 
-Definition s_pc (x : sub) p := {| spc_ := p; sa := sa x; sfd := sfd x; sto := sto x; scn := scn x; sdl := sdl x |}.
-Definition s_arm (x : sub) t := {| spc_ := SStore; sa := sa x; sfd := sfd x; sto := sto x; scn := scn x; sdl := t |}.
+Definition s_pc (x : sub) p := {| spc_ := p; sa := sa x; sfd := sfd x; sto := sto x; scn := scn x |}.
 Definition t_null (x : tent) (unl : bool) :=
   {| tstate := if unl then TGone else tstate x; tdl := tdl x; tev := None; tmin := tmin x |}.
 Definition t_pop (x : tent) := {| tstate := TGone; tdl := tdl x; tev := tev x; tmin := tmin x |}.
@@ -171,7 +171,7 @@ Definition idle_actor := mkA Idle 0 Rd false None [] 0 false false None false 0 
 Definition init : st :=
   mk 0 (fun _ => {| buf := []; wshut := false; sent := []; rcvd := []; eof := false |})
      (fun _ => false) (fun _ => false) (fun _ => None) (fun _ => None) (fun _ => None) (fun _ => false)
-     (fun _ => idle_actor) (fun _ => {| spc_ := SDone; sa := 0; sfd := 0; sto := None; scn := false; sdl := 0 |}) 0
+     (fun _ => idle_actor) (fun _ => {| spc_ := SDone; sa := 0; sfd := 0; sto := None; scn := false |}) 0
      (fun _ => {| tstate := TFree; tdl := 0; tev := None; tmin := 0 |}) 0 (fun _ => SIdle) (fun _ => CnIdle).
 
 (* the pipe an operation of kind k on descriptor f works on, and the descriptor of its other end *)
@@ -219,7 +219,7 @@ Definition disarm (s : st) (f : nat) (unl : bool) :=
 Definition wake (s : st) (c : nat) := wA s (upd (A s) c (a_wake (A s c))).
 
 Definition is_done (p : spc) := match p with SDone => true | _ => false end.
-Definition not_thnd (x : selst) (f : nat) := match x with THnd f' _ => negb (f' =? f) | _ => true end.
+Definition not_thnd (x : selst) (f : nat) := match x with THnd f' _ | THnd2 f' _ => negb (f' =? f) | _ => true end.
 Definition calm_ok (s : st) (a f : nat) : bool :=
   negb calm ||
   (forallb (fun k => negb ((sfd (Sb s k) =? f) || (sa (Sb s k) =? a)) || is_done (spc_ (Sb s k))) (seq 0 (nexts s))
@@ -252,7 +252,7 @@ Definition step (s : st) (ac : action) : option st :=
           else if negb (calm_ok s a (afd x)) then None
           else Some (wnexts (wS (wA s (upd (A s) a (a_susp x (nexts s))))
                                 (upd (Sb s) (nexts s) {| spc_ := match ato x with Some _ => SArm | None => SStore end;
-                                                        sa := a; sfd := afd x; sto := ato x; scn := acn x; sdl := 0 |}))
+                                                        sa := a; sfd := afd x; sto := ato x; scn := acn x |}))
                             (S (nexts s)))
       | RBack => if acanc x then Some (die s a) else Some (wA s (upd (A s) a (a_pc x RClr)))
       | RClr => Some (wA s (upd (A s) a (a_cio_pc x None LRes)))
@@ -280,7 +280,7 @@ Definition step (s : st) (ac : action) : option st :=
         | SArm =>
             match sto y with
             | Some d =>
-                Some (wnextt (wtmr (wT (wS s (upd (Sb s) k (s_arm y (now s + d))))
+                Some (wnextt (wtmr (wT (wS s (upd (Sb s) k (s_pc y SStore)))
                                        (upd (T s) (nextt s) {| tstate := TArmed; tdl := now s + d; tev := Some f;
                                                                tmin := atcall (A s a) + d |}))
                                    (upd (tmr s) f (Some (nextt s))))
@@ -288,17 +288,8 @@ Definition step (s : st) (ac : action) : option st :=
             | None => None
             end
         | SStore =>
-            Some (wA (wco (wS s (upd (Sb s) k (s_pc y (if fixB then match sto y with Some _ => STo | None => SChk end else SChk))))
-                          (upd (co s) f (Some a)))
+            Some (wA (wco (wS s (upd (Sb s) k (s_pc y SChk))) (upd (co s) f (Some a)))
                      (upd (A s) a (a_home (A s a) (HSlot f))))
-        | STo => Some (wS s (upd (Sb s) k (s_pc y (if sdl y <=? now s then STo2 else SChk))))
-        | STo2 =>
-            match co s f with
-            | None => Some (wS s (upd (Sb s) k (s_pc y SDone)))
-            | Some c => Some (wA (wco (wS s (upd (Sb s) k (s_pc y (SToT c)))) (upd (co s) f None))
-                                 (upd (A s) c (a_home (A s c) (HFast k))))
-            end
-        | SToT c => Some (wake_to (disarm (wS s (upd (Sb s) k (s_pc y SDone))) f unl) c)
         | SChk =>
             Some (wS s (upd (Sb s) k (s_pc y (if flag s f then SFast else if scn y then SSetIo else SDone))))
         | SFast =>
@@ -356,7 +347,8 @@ Definition step (s : st) (ac : action) : option st :=
                 match tev t with
                 | None => Some (wT s (upd (T s) e (t_pop t)))
                 | Some f => if selof f =? g then
-                              Some (wSel (wtmr (wT s (upd (T s) e (t_pop t))) (upd (tmr s) f None)) (upd (Sel s) g (THnd f e)))
+                              if fixB then Some (wSel (wT s (upd (T s) e (t_pop t))) (upd (Sel s) g (THnd f e)))
+                              else Some (wSel (wtmr (wT s (upd (T s) e (t_pop t))) (upd (tmr s) f None)) (upd (Sel s) g (THnd2 f e)))
                             else None
                 end
               else None
@@ -364,12 +356,18 @@ Definition step (s : st) (ac : action) : option st :=
           end
       | _ => None
       end
+  | SelMark g =>
+      match Sel s g with
+      | THnd f e => Some (wSel (wflag s (upd (flag s) f true)) (upd (Sel s) g (THnd2 f e)))
+      | _ => None
+      end
   | SelHnd g =>
       match Sel s g with
-      | THnd f e =>
+      | THnd2 f e =>
           match co s f with
           | None => Some (wSel s (upd (Sel s) g SIdle))
-          | Some c => Some (wake_to (wco (wSel s (upd (Sel s) g SIdle)) (upd (co s) f None)) c)
+          | Some c => Some (wake_to ((if fixB then fun s0 => disarm s0 f true else fun s0 => s0)
+                                       (wco (wSel s (upd (Sel s) g SIdle)) (upd (co s) f None))) c)
           end
       | _ => None
       end
